@@ -263,7 +263,7 @@ func runCase(c *rig.Ctx, cs Case, record bool, st *stats) bool {
 		if a, b := lib.CanonEps(ms.Eps), lib.CanonEps(is.Eps); a != b {
 			return fail("diff", "c03.state", fmt.Sprintf("op %d (%s): endpoints: model [%s], code [%s]", i, ops[i].Op, a, b), impl, m.Steps)
 		}
-		if a, b := lib.CanonLb(ms.Lb), lib.CanonLb(is.Lb); a != b {
+		if a, b := lib.CanonLb(ms.Lb), lib.CanonLb(is.Lb); a != b && w.CursorsVisible() {
 			return fail("diff", "c03.cursors", fmt.Sprintf("op %d (%s): load-balancer cursors: model [%s], code [%s]", i, ops[i].Op, a, b), impl, m.Steps)
 		}
 	}
@@ -302,8 +302,18 @@ func shrink(c *rig.Ctx, cs Case, kind, class string) Case {
 // runAny replays a recorded case of either stream.
 func runAny(c *rig.Ctx, raw json.RawMessage, st *stats) bool {
 	var probe struct {
-		Dispatch []json.RawMessage `json:"dispatch"`
-		Race     json.RawMessage   `json:"race"`
+		Dispatch    []json.RawMessage `json:"dispatch"`
+		Race        json.RawMessage   `json:"race"`
+		DisableRace json.RawMessage   `json:"disable_race"`
+	}
+	if json.Unmarshal(raw, &probe) == nil && probe.DisableRace != nil {
+		var dc DisableCase
+		json.Unmarshal(raw, &dc)
+		if !runDisableRace(c, dc) {
+			st.kind = "judge"
+			return false
+		}
+		return true
 	}
 	if json.Unmarshal(raw, &probe) == nil && probe.Race != nil {
 		var rc RaceCase
@@ -438,6 +448,14 @@ func main() {
 					}
 				}
 			}
+		}
+		// disable stream: no probe starts after the Sync that disables an endpoint (disable.go)
+		if !judged {
+			var dc DisableCase
+			dc.DisableRace.Rounds = c.Budget(24, 200)
+			c.Case(rig.Canon(dc), true, "disable-with-tick-pending", nil)
+			c.Trace()
+			runDisableRace(c, dc)
 		}
 		// race stream: requests while spec updates change the server set (child process; see race.go)
 		if !judged {
